@@ -541,14 +541,27 @@ pub fn drive(d: &mut Driver)
 	d.assume("operand values outside the boundary sets, bodies beyond the size bound, libc calls other than the builtin intrinsics and the wasm target are not covered");
 }
 
+thread_local! {
+	/// The run of the last executed program after `opt-14 -O2` (None when it was not accepted).
+	static LAST_OPTIMISED: std::cell::RefCell<Option<Result<crate::subjects::exec::Exec, String>>> = std::cell::RefCell::new(None);
+}
+
 fn execute(text: &str, desc_bytes: &[u8], w: &mut WorkerCtx) -> Option<(Verdict, Option<crate::subjects::exec::Exec>)>
 {
 	let src = text.to_string();
+	LAST_OPTIMISED.with(|l| *l.borrow_mut() = None);
 	match w.run_case(desc_bytes, || {
 		let v = alpha::compile_one(&src, alpha::FULL);
 		let exec = match &v
 		{
-			Verdict::Ok { irs, .. } => Some(run_lli(&irs[0], 30_000)),
+			Verdict::Ok { irs, .. } =>
+			{
+				// the same program after LLVM's optimiser: behaviour that changes there means the
+				// emitted IR relies on undefined behaviour
+				let optimised = crate::subjects::exec::optimise(&irs[0]).map(|o| run_lli(&o, 30_000));
+				LAST_OPTIMISED.with(|l| *l.borrow_mut() = Some(optimised));
+				Some(run_lli(&irs[0], 30_000))
+			}
 			_ => None,
 		};
 		(v, exec)
@@ -601,6 +614,36 @@ fn expect_output(text: &str, expected: &str, status: i32, class: &str, replay: V
 					)
 				});
 				return false;
+			}
+			// the optimised program must behave the same
+			match LAST_OPTIMISED.with(|l| l.borrow_mut().take())
+			{
+				Some(Ok(opt)) =>
+				{
+					if opt.stdout != exec.stdout || opt.status != exec.status
+					{
+						w.result.outcome(&format!("{}:CHANGES UNDER OPTIMISATION", class.split(':').next().unwrap_or(class)));
+						w.result.violation(&format!("behaviour-changes-under-optimisation:{}", class.split(':').take(2).collect::<Vec<_>>().join(":")), text.len() as u64, &desc, || {
+							format!(
+								"{class}: after `opt-14 -O2` the program gives status {:?} signal {:?} and prints\n{}\nunoptimised it gives status {:?} and prints\n{}\n(the emitted IR relies on undefined behaviour)\n--- program\n{}",
+								opt.status,
+								opt.signal,
+								opt.stdout.chars().take(400).collect::<String>(),
+								exec.status,
+								exec.stdout.chars().take(400).collect::<String>(),
+								text.chars().take(1500).collect::<String>()
+							)
+						});
+						return false;
+					}
+				}
+				Some(Err(e)) =>
+				{
+					w.result.violation(&format!("optimiser-rejects-ir:{}", class.split(':').next().unwrap_or(class)), text.len() as u64, &desc, || format!("{class}: opt-14 -O2 fails on the emitted IR: {e}"));
+					return false;
+				}
+				None =>
+				{}
 			}
 			w.result.outcome(&format!("{}:as prescribed", class.split(':').next().unwrap_or(class)));
 			true
